@@ -393,7 +393,9 @@ func (w *world) endBlock(op Op) {
 		}
 
 		// ---- direct oracle on the real state ----
-		if !j && !w.prevUnj[i] {
+		// "unjailed since": first end-block the validator ENTERED unjailed (the grace snapshot is taken
+		// before the sweep of the same end-block)
+		if !preJ[i] && !w.prevUnj[i] {
 			w.since[i] = h
 		}
 		la, hasKA := w.lastKA[i]
@@ -429,7 +431,7 @@ func (w *world) endBlock(op Op) {
 	}
 	for i := 0; i < n; i++ {
 		if w.live[i] {
-			w.prevUnj[i] = !w.val(i).IsJailed()
+			w.prevUnj[i] = !preJ[i]
 		}
 	}
 	// stored snapshot blob (new key) and presence of the legacy key
